@@ -22,6 +22,18 @@ type RelaySpec struct {
 	When string `json:"when"` // "connected" (right after the handshake) | "synced" (after the victim reached the honest tip)
 }
 
+// FloodSpec: the victim runs with a small per-subnet in-flight RPC cap and a /24 subnet key that the Byzantine
+// peer SHARES with the honest peer.  Once the victim has synced (honest peer marked synced) the Byzantine peer
+// fills the budget with half-open RPCs, sends further RPCs while it is full (dropped by the victim), disconnects;
+// then the honest peer mines Grow blocks and relays them: the victim must still follow.
+type FloodSpec struct {
+	Cap      int `json:"cap"`      // WithMaxInflightRPCsPerSubnet on the victim
+	HalfOpen int `json:"halfOpen"` // RPC ids sent without a request
+	Extra    int `json:"extra"`    // complete RPCs sent while the budget is full
+	Rounds   int `json:"rounds"`   // connect / flood / disconnect cycles
+	Grow     int `json:"grow"`     // blocks the honest peer mines afterwards
+}
+
 // ZSpec describes one Byzantine peer.
 type ZSpec struct {
 	Name    string      `json:"name"`
@@ -56,6 +68,7 @@ type ByzScenario struct {
 	DeadlineMs int     `json:"deadlineMs"`
 	Announce   string  `json:"announce"`
 	QuietP     bool    `json:"quietP"`
+	Flood      *FloodSpec `json:"flood"` // in-flight budget flood by the Byzantine peer(s), then the honest peer mines and relays
 	Retrieve   bool    `json:"retrieve"` // instant sync: the victim bootstraps with syncer.RetrieveCheckpoint from the Byzantine peer(s)
 }
 
@@ -279,6 +292,10 @@ func RunByz(sc ByzScenario, slot int) (out *ByzOutcome) {
 		}
 		// Byzantine peers live in their own /24 so that subnet strikes never touch honest peers
 		ip := fmt.Sprintf("127.%d.%d.%d", 201+slot%50, 1+(slot/50)%250, 10+i)
+		if sc.Flood != nil {
+			// the same /24 as the honest nodes: one subnet key under WithInflightRPCSubnetPrefixes(24, 48)
+			ip = fmt.Sprintf("127.%d.%d.%d", 1+slot%200, 1+(slot/200)%250, 60+i)
+		}
 		z := NewScriptedPeer(w, zspec.Name, ip, view, start)
 		z.Alt = ViewOf(w, vtip)
 		if zspec.View == "victim" || vtip == "g" {
@@ -317,7 +334,11 @@ func RunByz(sc ByzScenario, slot int) (out *ByzOutcome) {
 	mk := func(i int, name, tip string, quiet bool) (*Node, error) {
 		ip := ipOf(i)
 		addrRole[ip] = "honest:" + name
-		return NewNode(w, NodeOpts{Name: name, IP: ip, Tip: tip, Quiet: quiet, Timeouts: 2 * time.Second}, start, roles)
+		o := NodeOpts{Name: name, IP: ip, Tip: tip, Quiet: quiet, Timeouts: 2 * time.Second}
+		if sc.Flood != nil && name == "v" {
+			o.MaxInflightSubnet, o.SubnetV4Bits = sc.Flood.Cap, 24
+		}
+		return NewNode(w, o, start, roles)
 	}
 	v, err := mk(0, "v", vtip, false)
 	if err != nil {
@@ -583,6 +604,67 @@ func RunByz(sc ByzScenario, slot int) (out *ByzOutcome) {
 			fail(false, "byz:tip-lost", "victim left the honest tip after the relays: now at %s", w.Name(v.CM.Tip().ID))
 		}
 	}
+	if sc.Flood != nil && out.Reached {
+		// the honest peer is synced now; flood, disconnect, then let the honest chain grow
+		for r := 0; r < max(1, sc.Flood.Rounds); r++ {
+			for i, z := range zs {
+				if !z.Connected() {
+					dial(i, z)
+				}
+				if err := z.Flood(sc.Flood.HalfOpen, sc.Flood.Extra); err != nil {
+					lg.add("flood by %s: %v", z.Name, err)
+				} else {
+					lg.add("flood by %s: %d half-open, %d over budget; counters %v", z.Name, sc.Flood.HalfOpen, sc.Flood.Extra, v.S.VerifInflightSubnet())
+				}
+				z.hangup()
+			}
+			time.Sleep(300 * time.Millisecond)
+		}
+		p := ps[0]
+		for k := 0; k < sc.Flood.Grow; k++ {
+			cs := p.CM.TipState()
+			pname := w.Name(cs.Index.ID)
+			b := mineOnV(cs, w.minerAddr("grow"), []byte(fmt.Sprintf("grow-%d-%s", k, w.Seed)), cs.PrevTimestamps[0].Add(time.Second), false)
+			oracle := w.ManagerAt(pname)
+			if err := oracle.AddBlocks([]types.Block{b}); err != nil {
+				fail(false, "infra:grow", "%v", err)
+				return
+			}
+			htip = fmt.Sprintf("m%d", cs.Index.Height+1)
+			w.register(htip, b, cs.Index.Height+1, "ok", oracle.TipState())
+			if err := p.RCM.AddBlocks([]types.Block{b}); err != nil {
+				fail(false, "infra:grow", "%v", err)
+				return
+			}
+			p.Announce("both")
+		}
+		lg.add("honest peer grew to %s", htip)
+		out.Reached = false
+		end := time.Now().Add(time.Duration(sc.DeadlineMs) * time.Millisecond / 2)
+		for time.Now().Before(end) {
+			if reached() {
+				out.Reached = true
+				break
+			}
+			go p.Announce("both")
+			time.Sleep(250 * time.Millisecond)
+		}
+		lg.add("tip v = %s", w.Name(v.CM.Tip().ID))
+	}
+	// quiescence audit of the in-flight RPC accounting: scripted peers gone, honest peers synced
+	if out.Reached {
+		for _, z := range zs {
+			z.Close()
+		}
+		time.Sleep(200 * time.Millisecond)
+		for _, n := range nodes {
+			m, sum := n.InflightAtRest(4 * time.Second)
+			n.RecordIdle(sum)
+			if sum != 0 {
+				fail(false, "byz:inflight-leak:"+strings.Join(zKinds(sc), "+"), "node %s is at rest but its per-subnet in-flight RPC counters are %v (a counter is the number of running handlers)", n.Opts.Name, m)
+			}
+		}
+	}
 	for _, n := range nodes {
 		out.Tips[n.Opts.Name] = w.Name(n.CM.Tip().ID)
 		lg.add("peers of %s: %s", n.Opts.Name, peerSummary(n))
@@ -663,6 +745,17 @@ func RunByz(sc ByzScenario, slot int) (out *ByzOutcome) {
 		}
 	}
 	return
+}
+
+func zKinds(sc ByzScenario) []string {
+	var out []string
+	for _, z := range sc.Z {
+		out = append(out, zKind(z))
+	}
+	if sc.Flood != nil {
+		out = append(out, "flood")
+	}
+	return out
 }
 
 // zKind labels a Byzantine peer's script for signatures.
